@@ -159,6 +159,54 @@ def case(ctx, idx, res):
     res.viol('differs|%s|%s' % (decls_class(decls), classify(mx)), 'with %s the result differs from the result on the physically stripped document: %s\n    stylesheet: %s' % (decls, (d or '')[:300], mx[:800]), payload)
 
 
+def doc_case(ctx, idx, res):
+    """the same equivalence for a document loaded with document(): stripped according to the declarations, observed through
+    axes, counts, string values and copy-of"""
+    r = rng_for(ctx.seed, 'c13d', idx)
+    runner = ctx.cache.get('runner')
+    if runner is None:
+        runner = ctx.cache['runner'] = XC.Runner(ctx, 'plain')
+    xml2, info = gen_xml.gen_doc(r, size=r.choice([8, 15, 25]), ws_heavy=True, ids=False)
+    if r.random() < 0.3:
+        xml2 = add_xml_space(r, xml2)
+    decls = gen_decls(r, info)
+    observe = ('<xsl:for-each select="document(\'second.xml\')//*"><e n="{name()}" t="{count(text())}" c="{count(node())}" s="{string-length(.)}" f="{string-length(text()[1])}" '
+               'p="{count(preceding::text())}"/></xsl:for-each><k><xsl:copy-of select="document(\'second.xml\')/*"/></k>'
+               '<v><xsl:value-of select="document(\'second.xml\')"/></v><m><xsl:apply-templates select="document(\'second.xml\')/*" mode="w"/></m>')
+    tpl = '<xsl:template match="*" mode="w"><w n="{count(node())}"><xsl:apply-templates mode="w"/></w></xsl:template><xsl:template match="text()" mode="w"><t l="{string-length(.)}"/></xsl:template>'
+    xsl_with = (gen_xslt.HEAD % '') + decls + '<xsl:template match="/"><out>%s</out></xsl:template>%s</xsl:stylesheet>' % (observe, tpl)
+    xsl_without = xsl_with.replace(decls, '', 1)
+    try:
+        stripped2, removed = stripped_document(xsl_with, xml2)
+    except (refxslt.XsltError, X.XPathSyntaxError, refxml.ParseError) as e:
+        res.inconclusive.append('harness-exception: cannot compute D\': %s' % e)
+        return
+    d = os.path.join(ctx.workdir, 'c13d')
+    os.makedirs(d, exist_ok=True)
+
+    def run(xsl, second):
+        open(os.path.join(d, 'second.xml'), 'w', encoding='utf-8').write(second)
+        mp = os.path.join(d, 'main.xsl')
+        open(mp, 'w', encoding='utf-8').write(xsl)
+        return runner.transform(None, '<main/>', sty='file', xslpath=mp)
+    a = run(xsl_with, xml2)
+    b = run(xsl_without, stripped2)
+    res.count('document_function_pairs')
+    if removed:
+        res.sig = ('document()', decls)
+    payload = {'declarations': decls, 'stylesheet': xsl_with, 'second.xml': xml2, 'stripped second.xml': stripped2}
+    if a.status != b.status or a.status != 0:
+        res.viol('document()|status', 'document(): status %d with declarations %s, %d on the physically stripped document (%s / %s)' % (a.status, decls, b.status, a.err[:120], b.err[:120]), payload)
+        return
+    ta, tb = XC.output_tree(a.out), XC.output_tree(b.out)
+    if ta != tb:
+        dd = refxml.first_diff(('root', ta), ('root', tb))
+        res.viol('document()|differs|%s%s' % (decls_class(decls), '|xml:space' if 'xml:space' in xml2 else ''),
+                 'with %s a document loaded by document() is observed differently from its physically stripped copy: %s' % (decls, (dd or '')[:300]), payload)
+        return
+    res.count('document_function_agree')
+
+
 def decls_class(decls):
     return ','.join(sorted(set(re.findall(r'xsl:(strip|preserve)-space', decls))))
 
@@ -179,7 +227,8 @@ def main():
     chk.ensure('plain', 'xvdrv')
     n = 4000 if chk.tier == 'quick' else 150000
     chk.run_cases('c13', 'case', range(n))
-    chk.finish(min_nontrivial=100, required_stats=('agree', 'whitespace_nodes_removed', 'with_import', 'with_xml_space'))
+    chk.run_cases('c13', 'doc_case', range(n // 4))
+    chk.finish(min_nontrivial=100, required_stats=('agree', 'whitespace_nodes_removed', 'with_import', 'with_xml_space', 'document_function_agree'))
 
 
 if __name__ == '__main__':
